@@ -38,6 +38,7 @@ func (c ctor) String() string {
 }
 
 type op struct {
+	t, src     int // target / source instance of the history's pool of live containers
 	code, mode string
 	k          key
 	v          int64
@@ -51,6 +52,7 @@ type tdesc struct {
 	vkind    byte // 'o' interface{}  'i' int32  'l' int64  'f' float32  'u' set
 	hasCtor  bool
 	ops      []string
+	xops     []string // operations involving another live container, a caller-held result or a kept enumerator
 	mk       func(ctor) *inst
 	repaired bool // a known finding of this type no longer reproduces: compare with the repaired descriptor
 }
@@ -81,6 +83,18 @@ var types = []*tdesc{
 	{name: "LinkedSet", kkind: 'o', vkind: 'u', ops: setOps, mk: newLinkedSet},
 	{name: "IntLinkedSet", kkind: 'i', vkind: 'u', ops: setOps, mk: newIntLinkedSet},
 	{name: "StringLinkedSet", kkind: 's', vkind: 'u', ops: setOps, mk: newStringLinkedSet},
+}
+
+func init() {
+	for _, t := range types {
+		t.xops = []string{"KAW", "EOB"}
+		switch t.name {
+		case "IntKeyLinkedMap":
+			t.xops = append(t.xops, "GKS")
+		case "IntIntLinkedMap", "LongLongLinkedMap":
+			t.xops = append(t.xops, "TOF")
+		}
+	}
 }
 
 // method is the Go method an op code stands for (used in failure keys).
@@ -136,6 +150,17 @@ func (t *tdesc) method(o op) string {
 		return "SetMax"
 	case "SO":
 		return "Sort"
+	case "TOF":
+		return "ToObject"
+	case "KAW":
+		if t.name == "StringLinkedSet" {
+			return "GetArray"
+		}
+		return "KeyArray"
+	case "GKS":
+		return "GetKeySet"
+	case "EO", "ED":
+		return "Enumerator"
 	}
 	return o.code
 }
@@ -148,8 +173,18 @@ func (t *tdesc) keyTok(k key) string {
 }
 
 // line is the request line sent to the driver for this op.
-func (t *tdesc) line(o op) string {
+func (t *tdesc) line(o op) string { return fmt.Sprintf("@%d %s", o.t, t.line0(o)) }
+
+func (t *tdesc) line0(o op) string {
 	switch o.code {
+	case "TOF":
+		return fmt.Sprintf("TOF %d", o.src)
+	case "KAW", "GKS":
+		return "KS"
+	case "EO":
+		return "SZ"
+	case "ED":
+		return "ES"
 	case "P", "A":
 		return fmt.Sprintf("%s %s %s %d", o.code, o.mode, t.keyTok(o.k), o.v)
 	case "AN":
@@ -175,10 +210,19 @@ func (t *tdesc) line(o op) string {
 
 func parseLine(t *tdesc, l string) (op, bool) {
 	w := strings.Fields(l)
+	tgt := 0
+	if len(w) > 0 && strings.HasPrefix(w[0], "@") {
+		tgt, _ = strconv.Atoi(w[0][1:])
+		w = w[1:]
+	}
 	if len(w) == 0 {
 		return op{}, false
 	}
-	o := op{code: w[0]}
+	o := op{code: w[0], t: tgt}
+	if w[0] == "TOF" && len(w) == 2 {
+		o.src, _ = strconv.Atoi(w[1])
+		return o, true
+	}
 	pk := func(s string) key {
 		if t.kkind == 's' {
 			if s == "~" {
@@ -219,8 +263,8 @@ func parseLine(t *tdesc, l string) (op, bool) {
 
 func mutating(code string) bool {
 	switch code {
-	case "P", "A", "AN", "GL", "R", "RF", "RL", "C", "SO":
-		return true
+	case "P", "A", "AN", "GL", "R", "RF", "RL", "C", "SO", "TOF", "KAW", "GKS":
+		return true // (KAW / GKS do not mutate; they are followed by a dump because the caller modifies the returned slice / set)
 	}
 	return false
 }
@@ -319,12 +363,14 @@ type stepRes struct {
 	line string
 	o    op
 	out  string // implementation's canonical answer ("" for a dump line)
-	dmp  *dump  // set when this step is followed by a dump
+	dmps []dump // dump of EVERY live instance after this step (nil: not dumped)
+	rl   string // the line as stored in a replay
 }
 
 type histRes struct {
 	t      *tdesc
-	c      ctor
+	c      ctor   // constructor of instance 0
+	cs     []ctor // constructors of all live instances
 	steps  []stepRes
 	ops    []op
 	abort  string // "panic" | "timeout" | ""
@@ -332,24 +378,63 @@ type histRes struct {
 	abortP string
 }
 
-func runImpl(t *tdesc, c ctor, ops []op, dumpEvery int) *histRes {
-	h := &histRes{t: t, c: c, ops: ops}
+// replayLine: the harness-side form of an op (KAW / GKS / EO / ED are not driver lines)
+func (t *tdesc) replayLine(o op) string {
+	switch o.code {
+	case "KAW", "GKS", "EO", "ED":
+		return fmt.Sprintf("@%d %s", o.t, o.code)
+	}
+	return t.line(o)
+}
+
+// execOp runs one operation of a multi-instance history.
+func execOp(ms []*inst, o op) string {
+	m := ms[o.t]
+	switch o.code {
+	case "TOF":
+		m.toObjectBytes(ms[o.src].toBytes())
+		return "u"
+	case "KAW":
+		return m.keyArrayWrite()
+	case "GKS":
+		return m.keySetWrite()
+	case "EO":
+		m.openEnum()
+		return m.exec(op{code: "SZ"})
+	case "ED":
+		return m.drainEnum()
+	}
+	return m.exec(o)
+}
+
+func runImpl(t *tdesc, cs []ctor, ops []op, dumpEvery int) *histRes {
+	h := &histRes{t: t, c: cs[0], cs: cs, ops: ops}
 	var cur int64 = -1
 	var mu sync.Mutex
 	done := make(chan vh.Outcome, 1)
 	go func() {
 		done <- vh.Guard(func() {
-			m := t.mk(c)
+			var ms []*inst
+			for _, c := range cs {
+				ms = append(ms, t.mk(c))
+			}
 			sinceDump := 0
 			for i, o := range ops {
 				atomic.StoreInt64(&cur, int64(i))
-				out := m.exec(o)
-				st := stepRes{line: t.line(o), o: o, out: out}
+				if o.t >= len(ms) {
+					o.t = 0
+				}
+				if o.src >= len(ms) {
+					o.src = 0
+				}
+				out := execOp(ms, o)
+				st := stepRes{line: t.line(o), rl: t.replayLine(o), o: o, out: out}
 				if mutating(o.code) {
 					sinceDump++
 					if sinceDump >= dumpEvery || i == len(ops)-1 {
-						d := m.dump()
-						st.dmp = &d
+						for _, mi := range ms {
+							st.dmps = append(st.dmps, mi.dump())
+						}
 						sinceDump = 0
 					}
 				}
@@ -399,24 +484,51 @@ type replayCase struct {
 	Lf     float32  `json:"lf"`
 	Def    bool     `json:"default_ctor"`
 	Hmode  int      `json:"hmode"`
+	Insts  []instJ  `json:"instances"`
+}
+
+type instJ struct {
+	Cap   int     `json:"cap"`
+	Lf    float32 `json:"lf"`
+	Def   bool    `json:"default_ctor"`
+	Hmode int     `json:"hmode"`
+}
+
+func ctorsJ(cs []ctor) []instJ {
+	var out []instJ
+	for _, c := range cs {
+		out = append(out, instJ{c.cap, c.lf, c.def, int(c.hmode)})
+	}
+	return out
+}
+
+func ctorsStr(cs []ctor) string {
+	var xs []string
+	for _, c := range cs {
+		xs = append(xs, c.String())
+	}
+	return strings.Join(xs, " | ")
 }
 
 func mkReplay(h *histRes, upto int, want, got, detail string) replayCase {
 	var lines []string
 	for i := 0; i <= upto && i < len(h.steps); i++ {
-		lines = append(lines, h.steps[i].line)
+		lines = append(lines, h.steps[i].rl)
 	}
-	return replayCase{Type: h.t.name, Ctor: h.c.String(), New: h.t.newLine(h.c), Ops: lines, At: upto, Want: want, Got: got, Detail: detail,
-		Cap: h.c.cap, Lf: h.c.lf, Def: h.c.def, Hmode: int(h.c.hmode)}
+	return replayCase{Type: h.t.name, Ctor: ctorsStr(h.cs), New: h.t.newLine(h.c), Ops: lines, At: upto, Want: want, Got: got, Detail: detail,
+		Cap: h.c.cap, Lf: h.c.lf, Def: h.c.def, Hmode: int(h.c.hmode), Insts: ctorsJ(h.cs)}
 }
 
 // driverLines: the request lines of a history (N line, each op, ES after each dumped step).
 func driverLines(h *histRes) []string {
-	ls := []string{h.t.newLine(h.c)}
+	var ls []string
+	for i, c := range h.cs {
+		ls = append(ls, fmt.Sprintf("@%d %s", i, h.t.newLine(c)))
+	}
 	for _, s := range h.steps {
 		ls = append(ls, s.line)
-		if s.dmp != nil {
-			ls = append(ls, "ES")
+		for i := range s.dmps {
+			ls = append(ls, fmt.Sprintf("@%d ES", i))
 		}
 	}
 	return ls
@@ -447,11 +559,13 @@ func compare(h *histRes, ans []string) []*verdict {
 
 func compare1(h *histRes, ans []string, side func(*verdict)) *verdict {
 	t := h.t
-	if ans[0] != "ok" {
-		return &verdict{key: t.name + ".New:driver", summary: "driver refused the session: " + ans[0], rc: mkReplay(h, -1, "ok", ans[0], "")}
+	for i := range h.cs {
+		if ans[i] != "ok" {
+			return &verdict{key: t.name + ".New:driver", summary: "driver refused the session: " + ans[i], rc: mkReplay(h, -1, "ok", ans[i], "")}
+		}
 	}
-	var prev []pairS
-	j := 1
+	prevs := make([][]pairS, len(h.cs)) // last dumped entries per instance (nil: unknown)
+	j := len(h.cs)
 	for i, s := range h.steps {
 		model := ans[j]
 		j++
@@ -459,7 +573,7 @@ func compare1(h *histRes, ans []string, side func(*verdict)) *verdict {
 			return &verdict{key: t.name + "." + t.method(s.o) + ":model", summary: "Lean Spec and CodeModel disagree (theorem C09.refine_step would be violated): " + model,
 				rc: mkReplay(h, i, model, s.out, "")}
 		}
-		want := t.expect(s.o, model, prev)
+		want := t.expect(s.o, model, prevs[s.o.t])
 		if want == "K:?" && strings.HasPrefix(s.out, "K:") {
 			want = s.out // the model's state was not dumped before this op (long history): only present/absent is compared
 		}
@@ -468,21 +582,26 @@ func compare1(h *histRes, ans []string, side func(*verdict)) *verdict {
 				summary: fmt.Sprintf("%s.%s returned %s, the dictionary model returns %s (op %d: %s)", t.name, t.method(s.o), s.out, want, i, s.line),
 				rc:      mkReplay(h, i, want, s.out, "")}
 		}
-		if s.dmp != nil {
+		for di := range s.dmps {
 			es := ans[j]
 			j++
-			d := s.dmp
+			d := &s.dmps[di]
 			got := joinPairs(d.entries)
 			if d.note != "" {
 				side(&verdict{key: t.name + ".Values:enumeration", summary: fmt.Sprintf("%s: %s (after op %d: %s)", t.name, d.note, i, s.line),
 					rc: mkReplay(h, i, es, got, d.note)})
+			}
+			if got != es && di != s.o.t {
+				return &verdict{key: t.name + "." + t.method(s.o) + ":aliasing",
+					summary: fmt.Sprintf("%s.%s on instance %d changed ANOTHER live instance (%d): its entries are %s, its model has %s (op %d: %s)", t.name, t.method(s.o), s.o.t, di, vh.Clip(got, 160), vh.Clip(es, 160), i, s.rl),
+					rc:      mkReplay(h, i, es, got, fmt.Sprintf("instance %d", di))}
 			}
 			if got != es {
 				return &verdict{key: t.name + "." + t.method(s.o) + ":state",
 					summary: fmt.Sprintf("after %s.%s the entries are %s, the dictionary model has %s (op %d: %s)", t.name, t.method(s.o), vh.Clip(got, 160), vh.Clip(es, 160), i, s.line),
 					rc:      mkReplay(h, i, es, got, "")}
 			}
-			prev = d.entries
+			prevs[di] = d.entries
 			var ks, vs []string
 			for _, p := range d.entries {
 				ks = append(ks, p.k)
@@ -504,8 +623,9 @@ func compare1(h *histRes, ans []string, side func(*verdict)) *verdict {
 				side(&verdict{key: t.name + ".Size:count", summary: fmt.Sprintf("%s.Size() = %d with %d entries enumerated", t.name, d.size, len(d.entries)),
 					rc: mkReplay(h, i, strconv.Itoa(len(d.entries)), strconv.Itoa(d.size), "")})
 			}
-		} else if mutating(s.o.code) {
-			prev = nil
+		}
+		if len(s.dmps) == 0 && mutating(s.o.code) {
+			prevs[s.o.t] = nil
 		}
 	}
 	return nil
@@ -677,10 +797,27 @@ func genVal(t *tdesc, r *vh.Rng) int64 {
 	return r.Range(-50, 50)
 }
 
-var weights = map[string]int{"P:L": 18, "P:FL": 8, "P:FF": 8, "A:L": 5, "A:FL": 3, "A:FF": 3, "AN": 3, "G": 7, "GL": 5, "CK": 5, "CV": 3,
+var weights = map[string]int{"TOF": 5, "KAW": 2, "GKS": 2, "EOB": 3, "P:L": 18, "P:FL": 8, "P:FF": 8, "A:L": 5, "A:FL": 3, "A:FF": 3, "AN": 3, "G": 7, "GL": 5, "CK": 5, "CV": 3,
 	"FK": 2, "LK": 2, "FV": 2, "LV": 2, "R": 9, "RF": 4, "RL": 4, "C": 1, "SZ": 2, "IE": 1, "IF": 2, "SM": 3, "SO": 2}
 
-func genOps(t *tdesc, r *vh.Rng, avail []string, n int) []op {
+// baseOnly: the single-object operations among the available ones
+func baseOnly(avail []string) []string {
+	var out []string
+	for _, a := range avail {
+		switch a {
+		case "TOF", "KAW", "GKS", "EOB":
+		default:
+			out = append(out, a)
+		}
+	}
+	return out
+}
+
+// genOps generates a history over `nInst` live instances of the type (one key pool for all of them).
+// Cross-object operations: TOF (ToObject of another live instance's ToBytes, sometimes into a just-cleared
+// target), KAW (KeyArray/GetArray overwritten by the caller), GKS (GetKeySet/ToKeySet results modified by
+// the caller), EOB (enumerators taken, OTHER instances mutated, enumerators drained).
+func genOps(t *tdesc, r *vh.Rng, avail []string, n int, nInst int) []op {
 	pool := keyPool(t, r)
 	total := 0
 	for _, a := range avail {
@@ -698,12 +835,32 @@ func genOps(t *tdesc, r *vh.Rng, avail []string, n int) []op {
 				break
 			}
 		}
-		o := op{code: code}
+		o := op{code: code, t: r.Intn(nInst)}
 		if i := strings.IndexByte(code, ':'); i >= 0 {
 			o.code, o.mode = code[:i], code[i+1:]
 		}
 		o.k = pool[r.Intn(len(pool))]
 		switch o.code {
+		case "TOF":
+			o.src = r.Intn(nInst)
+			if r.Chance(30) { // an empty target
+				ops = append(ops, op{code: "C", t: o.t})
+			}
+		case "EOB":
+			a := o.t
+			ops = append(ops, op{code: "EO", t: a})
+			for i, m := 0, 1+r.Intn(4); i < m; i++ {
+				if nInst > 1 {
+					sub := genOps(t, r, baseOnly(avail), 1, 1)[0]
+					sub.t = (a + 1 + r.Intn(nInst-1)) % nInst
+					sub.k = pool[r.Intn(len(pool))]
+					ops = append(ops, sub)
+				} else {
+					ops = append(ops, op{code: []string{"CK", "SZ", "FK", "LK"}[r.Intn(4)], t: a, k: pool[r.Intn(len(pool))]})
+				}
+			}
+			ops = append(ops, op{code: "ED", t: a})
+			continue
 		case "P", "A", "AN":
 			o.v = genVal(t, r)
 			vals = append(vals, o.v)
@@ -988,9 +1145,24 @@ func main() {
 			}
 		}
 		type job struct {
-			c   ctor
+			cs  []ctor
 			ops []op
 			de  int
+		}
+		availX := append(append([]string(nil), avail...), t.xops...)
+		genCtors := func(r *vh.Rng) []ctor {
+			n := r.PickInt([]int{1, 2, 2, 2, 3, 3})
+			cs := []ctor{genCtor(t, r, po.capOK)}
+			for len(cs) < n {
+				if r.Chance(50) {
+					cs = append(cs, cs[0]) // same capacity / load factor / hash mode
+				} else {
+					c := genCtor(t, r, po.capOK)
+					c.hmode = cs[0].hmode // LinkedKey objects of one history share their hash mode
+					cs = append(cs, c)
+				}
+			}
+			return cs
 		}
 		var jobs []job
 		for i := 0; i < perType; i++ {
@@ -1003,12 +1175,13 @@ func main() {
 			if n > 400 {
 				de = 25
 			}
-			jobs = append(jobs, job{genCtor(t, r, po.capOK), genOps(t, r, avail, n), de})
+			cs := genCtors(r)
+			jobs = append(jobs, job{cs, genOps(t, r, availX, n, len(cs)), de})
 		}
 		for i := 0; i < growthPer; i++ {
 			r := rng.Fork()
 			c := genCtor(t, r, po.capOK)
-			jobs = append(jobs, job{c, genGrowth(t, r, availSet, growthN), 64})
+			jobs = append(jobs, job{[]ctor{c}, genGrowth(t, r, availSet, growthN), 64})
 		}
 		res := make([]*histRes, len(jobs))
 		var wg sync.WaitGroup
@@ -1018,7 +1191,7 @@ func main() {
 			sem <- struct{}{}
 			go func(i int, j job) {
 				defer wg.Done()
-				res[i] = runImpl(t, j.c, j.ops, j.de)
+				res[i] = runImpl(t, j.cs, j.ops, j.de)
 				<-sem
 			}(i, j)
 		}
@@ -1105,8 +1278,10 @@ func main() {
 				if mutating(s.o.code) {
 					nontriv = true
 				}
-				if s.dmp != nil && s.dmp.size > maxSize {
-					maxSize = s.dmp.size
+				for _, d := range s.dmps {
+					if d.size > maxSize {
+						maxSize = d.size
+					}
 				}
 			}
 			rep.Case(sb.String(), nontriv)
@@ -1115,6 +1290,7 @@ func main() {
 				rep.Count("history-with-full-hash-collision:" + h.t.name)
 			}
 			rep.Count("ctor:" + h.c.String())
+			rep.Count(fmt.Sprintf("live-instances:%d", len(h.cs)))
 			rep.Count(fmt.Sprintf("history-length:%s", bucket(len(h.steps))))
 			rep.Count(fmt.Sprintf("max-size:%s", bucket(maxSize)))
 			rep.Count(fmt.Sprintf("growth-steps:%d", growthSteps(h.c, maxSize)))
@@ -1140,7 +1316,7 @@ type pendingFail struct {
 
 // failsWith re-runs a candidate history on the implementation and the driver and says whether the
 // failure with the given key is still there.
-func failsWith(env *vh.Env, t *tdesc, c ctor, ops []op, key string) (*histRes, *verdict) {
+func failsWith(env *vh.Env, t *tdesc, c []ctor, ops []op, key string) (*histRes, *verdict) {
 	h := runImpl(t, c, ops, 1)
 	if h.abort != "" {
 		return nil, nil
@@ -1165,7 +1341,7 @@ func shrink(env *vh.Env, h *histRes, v *verdict, budget int) (*histRes, *verdict
 		upto = len(h.ops)
 	}
 	cur := append([]op(nil), h.ops[:upto]...)
-	bestH, bestV := failsWith(env, h.t, h.c, cur, v.key)
+	bestH, bestV := failsWith(env, h.t, h.cs, cur, v.key)
 	if bestH == nil {
 		return h, v // not reproducible in isolation (should not happen: histories are deterministic)
 	}
@@ -1180,7 +1356,7 @@ func shrink(env *vh.Env, h *histRes, v *verdict, budget int) (*histRes, *verdict
 			}
 			cand := append(append([]op(nil), cur[:i]...), cur[j:]...)
 			budget--
-			if hh, vv := failsWith(env, h.t, h.c, cand, v.key); hh != nil {
+			if hh, vv := failsWith(env, h.t, h.cs, cand, v.key); hh != nil {
 				cur, bestH, bestV = cand, hh, vv
 				reduced = true
 				if n > 2 {
@@ -1331,7 +1507,14 @@ func replayFile(env *vh.Env, rep *vh.Report) {
 				ops = append(ops, o)
 			}
 		}
-		h := runImpl(t, c, ops, 1)
+		cs := []ctor{c}
+		if len(rc.Insts) > 0 {
+			cs = nil
+			for _, x := range rc.Insts {
+				cs = append(cs, ctor{def: x.Def, cap: x.Cap, lf: x.Lf, hmode: byte(x.Hmode)})
+			}
+		}
+		h := runImpl(t, cs, ops, 1)
 		if h.abort != "" {
 			rep.Fail("property", rc.Type+".replay:"+h.abort, fmt.Sprintf("replayed history ends in %s at op %d: %s", h.abort, h.abortI, vh.Clip(h.abortP, 160)),
 				mkReplay(h, len(h.steps)-1, "a result", h.abort, h.abortP))
